@@ -1011,9 +1011,9 @@ pub fn property() -> Property {
         ],
         subs: vec![
             Sub { name: "anchors", kind: Kind::Index { count: |_| 1, exhaustive: true, f: anchors } },
-            Sub { name: "builder_programs", kind: Kind::Tape { max_len: 1400, quick: 200_000, thorough: 5_000_000, f: builder_programs } },
+            Sub { name: "builder_programs", kind: Kind::Tape { max_len: 1400, quick: 800_000, thorough: 10_000_000, f: builder_programs } },
             Sub { name: "templates_exhaustive", kind: Kind::Index { count: |_| (MAX_L + 1) * 256, exhaustive: true, f: templates_exhaustive } },
-            Sub { name: "template_perturbations", kind: Kind::Tape { max_len: 200, quick: 400_000, thorough: 10_000_000, f: template_perturbations } },
+            Sub { name: "template_perturbations", kind: Kind::Tape { max_len: 200, quick: 1_600_000, thorough: 20_000_000, f: template_perturbations } },
         ],
         known: vec![Known {
             key: KF_SHORT_PROGRAM,
